@@ -3,6 +3,24 @@
 import json, os
 
 CLAIMS = {
+ "C04": {
+  "text": "Decides the structural necessary conditions of order independence: the set address sorts the very slice it hashes and every set-address entry point reaches that leaf; per-solution addresses depend on one solution only (plain content_addr mapped over the solutions); the duplicate-slot detection must span all solutions and be keyed by contract. The last rule is violated on the pinned tree (open known finding K2). Partial claim: equality of verdict/gas/computed mutations under permutation is not decided as a behavioural fact.",
+  "note": "Known finding K2 (per-solution duplicate set) is recorded, not repaired: the repair changes which sets validation accepts. Relies on C02 (determinism) for the informal step from structure to behaviour.",
+  "technique": "static analysis: dominance (sort before hash on the same slice), call-graph delegation table, loop-scope analysis of the duplicate-detection collection",
+  "design_ref": "3/C04",
+ },
+ "C15": {
+  "text": "Decides both analyses exactly at the level of their tables: every Effects flag has exactly one `|=` arm reachable only for the op variant of the same name; every `return true` of the byte scan is guarded by byte == opcode(G::V) and effects.contains(Effects::V) for the same V with the byte taken from the main iterator, all flags covered, `false` only at end of input; every spec op with immediates advances the same iterator by exactly num_arg_bytes without returning and nothing else advances it. With C13 (unique opcode bytes) this yields the `exactly when` of the property for all byte strings.",
+  "note": "Trusted: bitflags (contains, |=), Iterator::take/for_each; C13 for opcode injectivity.",
+  "technique": "static analysis: path-condition atoms over MIR switch edges paired with flag constants; iterator-advance whitelist checked against asm.yml",
+  "design_ref": "3/C15",
+ },
+ "C17": {
+  "text": "Decides: sort-before-hash on the very slice hashed for contracts (salt last) and sets; delegation agreement of all address entry points per type down to one SHA-256 leaf with unmodified arguments; SHA-256 users are new/update(input)/finalize; encoder, size helper and decoder agree on the predicate layout - widths are read off the encoder's iterator chain and closures, the size helper's linear form must equal them, the decoder's four ranges must be 0..2, 2..2+34n, 2+34n..4+34n, 4+34n..4+34n+2m; every variable-length part is length-prefixed with constant widths (injectivity skeleton). Partial claim: injectivity of postcard and SHA-256 collision resistance are trusted.",
+  "note": "Trusted: sha2, postcard, slice::sort, derived Ord of ContentAddress.",
+  "technique": "static analysis: dominance, call-graph delegation table, symbolic linear forms over MIR arithmetic compared between encoder, size helper and decoder",
+  "design_ref": "3/C17",
+ },
  "C03": {
   "text": "Decides the structural clauses that make post-state reads see pre-state + all of the set's mutations: the pre/post x own/extern routing table (derived from variant names), that the first pass runs with an empty post view, that the insert loop covers every solution and mutation of the set returned by the first pass keyed by (contract, key), that the second pass is dominated by the first and given the built view, that the view forwards requests unchanged and delegates to the pre-state where nothing is proposed, that the deferral mask contains every Post* flag, the run-mode split, and that deferral is closed under descendants (fixed point). Partial claim: the overlay arithmetic is not decided.",
   "note": "Depends on C15 (exactness of the byte scan). Value-level clauses (next_key carry, straddling ranges, deletion) are not decided.",
